@@ -5,7 +5,7 @@ C01_CLASSES = {"wrong-count", "empty-cycle", "foreign-edge", "repeated-edge", "n
 C02_CLASSES = {"return-mismatch", "not-minimum", "weight-vector", "unweighable-output"}
 
 RULE = ("every labelled simple graph on exactly n vertices (all 2^(n(n-1)/2) edge subsets, edges inserted in "
-        "lexicographic order; additionally with every edge / every second edge handed to add_edge in reversed orientation) x every function E->alphabet (U={1}, A2={1,2}, A3={1,2,3}, D={.25,.5,.75}; PM / PM2 = all m! assignments of the distinct weights 1..m / 2^0..2^(m-1)) x each of "
+        "lexicographic order; additionally with every edge / every second edge handed to add_edge in reversed orientation) x every function E->alphabet (U={1}, A2={1,2}, A3={1,2,3}, D={.25,.5,.75}, B2/B3 = 2^25+{1,2[,3]}; PM / PM2 = all m! assignments of the distinct weights 1..m / 2^0..2^(m-1)) x each of "
         "mcb_sva_signed / mcb_sva_fvs_trees / mcb_sva_iso_trees, plus named families with all weightings; oracle = "
         "all simple cycles + GF(2) greedy reference (Horton-collection reference above cycle space dimension 15); a fixed menu of pseudo-random sparse graphs (deterministic generator, enumerated completely). evaluations = algorithm runs; distinct_nontrivial = distinct "
         "(graph, weighting, weight type) inputs whose cycle space dimension is >= 1 (enumeration never repeats an input)")
@@ -29,6 +29,8 @@ def runs(tier):
         ("edge orientation (source/target as handed to add_edge) reversed / alternating: G(0..4) x A3, G(5) x A2", [["--n", n, "--alpha", "A3", "--orient", o] for n in range(2, 5) for o in (1, 2)] + [["--n", 5, "--alpha", "A2", "--orient", o] for o in (1, 2)]),
         ("G(6) x U, double", [["--n", 6, "--alpha", "U"]]),
         ("G(5) with at most 7 edges x PM2 (every assignment of the distinct weights 2^0..2^(m-1): unique optimum, no ties that could mask a lost candidate)", [["--n", 5, "--alpha", "PM2", "--max-m", 7]]),
+        ("weights with 26 significant bits (2^25 + {1,2,3}: competing cycles differ by units at magnitude 1e8): G(4) x B3 double and int, G(5) x B2 double",
+         [["--n", 4, "--alpha", "B3"], ["--n", 4, "--alpha", "B3", "--wtype", "int"], ["--n", 5, "--alpha", "B2"]]),
         ("weights spanning 60 binary orders of magnitude: G(4) x A3 and G(5) x A2 (at most 8 edges), each with one more component = a single edge weighing 2^60",
          [["--n", 4, "--alpha", "A3", "--plus-heavy-k2"], ["--n", 5, "--alpha", "A2", "--max-m", 8, "--plus-heavy-k2"]]),
         ("blob grammar K=3,T=2 x patterns U, M2, M3", [["--grammar", "blobs:3:2", "--alpha", a] for a in ("U", "M2", "M3")]),
@@ -61,7 +63,7 @@ def runs(tier):
 def run(prop, tier):
     classes = C01_CLASSES if prop == "C01" else C02_CLASSES
     c = vlib.Check(prop, tier, "exploration", RULE, "exact")
-    c.deadline = 110 if tier == "quick" else 1500
+    c.deadline = 170 if tier == "quick" else 1500
     c.assumptions = ["reference oracle (DFS enumeration of all simple cycles, GF(2) greedy) is correct; it shares no code with parmcb",
                      "weights are integers or dyadic so double arithmetic in the oracle is exact",
                      "harness compiled with the shipped configuration (-O2 -DNDEBUG, PARMCB_INVARIANTS_CHECK on)"]
